@@ -3,6 +3,7 @@ package main
 import (
 	"context"
 	"crypto/ed25519"
+	"errors"
 	"fmt"
 	"runtime"
 	"sync"
@@ -90,6 +91,13 @@ func closeStackKinds() []func() closable {
 				"b": multiswarm.WrapSecureAskSwarm[memswarm.Addr, x509.PublicKey](newMem()),
 			})
 			return mkClosable[multiswarm.Addr]("multiswarm", ms)
+		},
+		func() closable {
+			ms := multiswarm.NewSecureAsk[x509.PublicKey](map[string]multiswarm.DynSecureAskSwarm[x509.PublicKey]{
+				"a": errCloseSwarm{multiswarm.WrapSecureAskSwarm[memswarm.Addr, x509.PublicKey](newMem())},
+				"b": errCloseSwarm{multiswarm.WrapSecureAskSwarm[memswarm.Addr, x509.PublicKey](newMem())},
+			})
+			return mkClosable[multiswarm.Addr]("multiswarm-transport-close-fails", ms)
 		},
 		func() closable {
 			ks := p2pkeswarm.New[memswarm.Addr](newMem(), testKey(501))
@@ -349,4 +357,15 @@ func cancelStacks(c *ctxT) {
 		c.emit(sx.L(sx.S("hub"), sx.S("cancel-"+cl.name), sx.I(len(done)), sx.I(0), sx.I(c.n)), sx.L(evs...))
 		c.count("cancel/" + cl.name)
 	}
+}
+
+// errCloseSwarm is a transport whose Close does its work and then reports an error
+// (a socket its owner had already closed does that)
+type errCloseSwarm struct {
+	multiswarm.DynSecureAskSwarm[x509.PublicKey]
+}
+
+func (e errCloseSwarm) Close() error {
+	e.DynSecureAskSwarm.Close()
+	return errors.New("transport close failed")
 }
